@@ -403,6 +403,12 @@ VE = {"ValueError"}
 IA = {"ValueError", "IncompatibleArgsError"}
 
 
+def worker_exit():
+    if _TMP[0] is not None:
+        shutil.rmtree(_TMP[0], ignore_errors=True)
+        _TMP[0] = None
+
+
 def run_case(case):
     from pacti.iocontract import Var
 
